@@ -1,8 +1,8 @@
 package codec
 
 import (
-	"bytes"
 	"fmt"
+	"io"
 	"runtime/debug"
 	"sort"
 	"strings"
@@ -24,8 +24,24 @@ func decode(in []byte) (p pkts.Packet, err error, panicSite, panicMsg string) {
 			panicSite = topRepoFrame(string(debug.Stack()))
 		}
 	}()
-	p, err = p1.ReadPacket(bytes.NewReader(in))
+	p, err = p1.ReadPacket(&datagram{b: in})
 	return
+}
+
+// datagram delivers its content the way a datagram socket does: one Read returns the whole datagram and no
+// error, also when the datagram is empty (bytes.Reader would answer io.EOF for an empty input and the decoder
+// would never see it).
+type datagram struct {
+	b    []byte
+	read bool
+}
+
+func (d *datagram) Read(p []byte) (int, error) {
+	if d.read {
+		return 0, io.EOF
+	}
+	d.read = true
+	return copy(p, d.b), nil
 }
 
 // topRepoFrame names the innermost bisquitt function on a panic stack.
